@@ -413,3 +413,539 @@ Lemma reinit_opts_spec which x :
   eff Tost true false false x (reinit_opts which x) /\
   a_opts (snd (reinit_opts which x)) = map (reopt (filter which (r_opts (a_reg (snd x)))) (snd x)) (a_opts (snd x)).
 Proof. intros ND. unfold reinit_opts. apply reinit_list. apply NoDup_map_filter; auto. Qed.
+
+(* ---------------------------------------------------------------------------------------------- *)
+(* 8. registries: the side conditions in propositional form *)
+Record WfReg (r : registry) : Prop := mkWf {
+  wf_opt_nets : forall c n, In c (r_opts r) -> In n (oc_nets c) -> ~ In n (shared_names r);
+  wf_share_skip : has_share r = false \/ r_act_skip r = true;
+  wf_opt_names : NoDup (map oc_name (r_opts r));
+  wf_shared_not_eval : forall s, In s (shared_names r) -> ~ In s (eval_names r);
+  wf_shared_nodup : NoDup (shared_names r) }.
+
+Lemma wf_registry_WfReg r : wf_registry r = true -> WfReg r.
+Proof.
+  unfold wf_registry. rewrite !andb_true_iff. intros [[[[H1 H2] H3] H4] H5]. constructor.
+  - intros c n Hc Hn Hin. rewrite forallb_forall in H1. specialize (H1 c Hc). rewrite forallb_forall in H1.
+    specialize (H1 n Hn). apply negb_true_iff in H1. apply memN_In in Hin. congruence.
+  - apply orb_true_iff in H2 as [H2|H2]; auto. left. apply negb_true_iff in H2. auto.
+  - apply nodupN_NoDup; auto.
+  - intros s Hs Hin. rewrite forallb_forall in H4. specialize (H4 s Hs). apply negb_true_iff in H4.
+    apply memN_In in Hin. congruence.
+  - apply nodupN_NoDup; auto.
+Qed.
+
+Lemma no_share_others r : has_share r = false -> share_others r = [].
+Proof.
+  unfold has_share, share_others. induction (r_hooks r) as [|h t IH]; cbn [existsb flat_map]; auto.
+  intros H. apply orb_false_iff in H as [H1 H2]. destruct h; cbn in H1; try discriminate; cbn [app]; auto.
+Qed.
+
+(* ---------------------------------------------------------------------------------------------- *)
+(* 9. shared / target networks are re-created from their evaluation network *)
+Lemma eff_pure_arch T fo fh g x : eff T fo fh true x (pure (fun a => with_arch a (g a)) x).
+Proof. unfold pure. repeat split; auto. discriminate. Qed.
+
+Lemma eff_pure_mut T fo fh fa m x : eff T fo fh fa x (pure (fun a => with_mut a m) x).
+Proof. unfold pure. repeat split; auto. Qed.
+
+Lemma eff_rebuild_shared_one e s x : eff (fun k => fst k = s) false false true x (rebuild_shared_one e s x).
+Proof.
+  unfold rebuild_shared_one. cbv zeta. apply eff_seqL.
+  repeat (apply Forall_cons; [intros y; first [apply eff_pure_arch | effw]|]). apply Forall_nil.
+Qed.
+
+Lemma arch_rebuild_shared_one e s x :
+  a_arch (snd (rebuild_shared_one e s x)) = setN s (lookupN 0 e (a_arch (snd x))) (a_arch (snd x)).
+Proof.
+  unfold rebuild_shared_one. cbv zeta.
+  match goal with |- context [seqL [?a; ?b; ?c; ?d; ?f; ?g; ?h] x] =>
+    change (seqL [a; b; c; d; f; g; h] x) with (seqL ([a; b; c; d; f; g] ++ [h]) x);
+    rewrite seqL_app;
+    assert (E : eff (fun _ => True) false false false x (seqL [a; b; c; d; f; g] x))
+  end.
+  { apply eff_seqL. repeat (apply Forall_cons; [intros y; effw|]). apply Forall_nil. }
+  destruct E as (_ & _ & E & _). rewrite seqL_cons, seqL_nil. unfold pure. cbn [snd with_arch a_arch].
+  rewrite E by auto. reflexivity.
+Qed.
+
+Definition spairs (gs : list group) : list (name * name) :=
+  flat_map (fun g => map (fun s => (g_eval g, s)) (g_shared g)) gs.
+Definition rb_pair (p : name * name) : lstate -> lstate := fun y => rebuild_shared_one (fst p) (snd p) y.
+Definition arch_fold (ps : list (name * name)) (ar : list (name * N)) : list (name * N) :=
+  fold_left (fun ar p => setN (snd p) (lookupN 0 (fst p) ar) ar) ps ar.
+
+Lemma rebuild_shared_pairs x :
+  rebuild_shared x = seqL (map rb_pair (spairs (r_groups (a_reg (snd x))))) x.
+Proof.
+  unfold rebuild_shared. f_equal. induction (r_groups (a_reg (snd x))) as [|g r IH]; cbn [flat_map spairs]; auto.
+  fold (spairs r). rewrite map_app, map_map, IH. reflexivity.
+Qed.
+
+Lemma spairs_snd gs : map snd (spairs gs) = flat_map g_shared gs.
+Proof.
+  induction gs as [|g r IH]; cbn [spairs flat_map]; auto. fold (spairs r).
+  rewrite map_app, map_map, IH. cbn [snd]. rewrite map_id. reflexivity.
+Qed.
+
+Lemma spairs_fst gs p : In p (spairs gs) -> In (fst p) (map g_eval gs).
+Proof.
+  unfold spairs. intros H. apply in_flat_map in H as (g & Hg & Hp). apply in_map_iff in Hp as (s & <- & _).
+  cbn [fst]. apply in_map; auto.
+Qed.
+
+Lemma arch_seq ps : forall x, a_arch (snd (seqL (map rb_pair ps) x)) = arch_fold ps (a_arch (snd x)).
+Proof.
+  induction ps as [|p r IH]; intros x; cbn [map]; [reflexivity|].
+  rewrite seqL_cons, IH. unfold rb_pair at 1. rewrite arch_rebuild_shared_one. reflexivity.
+Qed.
+
+Lemma arch_fold_other ps : forall ar n, ~ In n (map snd ps) -> lookupN 0 n (arch_fold ps ar) = lookupN 0 n ar.
+Proof.
+  induction ps as [|p r IH]; intros ar n H; cbn [arch_fold fold_left]; auto.
+  fold (arch_fold r (setN (snd p) (lookupN 0 (fst p) ar) ar)).
+  rewrite IH by (intro; apply H; right; auto). apply lookupN_setN_other. intro; subst. apply H. left; auto.
+Qed.
+
+Lemma arch_fold_keys ps : forall ar, map fst (arch_fold ps ar) = map fst ar.
+Proof.
+  induction ps as [|p r IH]; intros ar; cbn [arch_fold fold_left]; auto.
+  fold (arch_fold r (setN (snd p) (lookupN 0 (fst p) ar) ar)). rewrite IH. apply setN_keys.
+Qed.
+
+Lemma arch_fold_ok ps : NoDup (map snd ps) -> (forall p q, In p ps -> In q ps -> fst p <> snd q) ->
+  forall ar p, In p ps -> In (snd p) (map fst ar) ->
+  lookupN 0 (snd p) (arch_fold ps ar) = lookupN 0 (fst p) (arch_fold ps ar).
+Proof.
+  induction ps as [|p0 r IH]; intros ND D ar p Hp Hin; [contradiction|].
+  cbn [arch_fold fold_left]. fold (arch_fold r (setN (snd p0) (lookupN 0 (fst p0) ar) ar)).
+  cbn [map] in ND. inversion ND as [|? ? Hn ND']; subst. destruct Hp as [<-|Hp].
+  - rewrite !arch_fold_other; auto.
+    + rewrite lookupN_setN_same by auto. rewrite lookupN_setN_other; auto. apply D; left; auto.
+    + intro H. apply in_map_iff in H as (q & Eq & Hq). apply (D p0 q); [left; auto|right; auto|auto].
+  - apply IH; auto.
+    + intros a b Ha Hb. apply D; right; auto.
+    + rewrite setN_keys. auto.
+Qed.
+
+Definition Tsh (r : registry) (k : key) : Prop := In (fst k) (shared_names r).
+
+Lemma eff_rebuild_shared x : eff (Tsh (a_reg (snd x))) false false true x (rebuild_shared x).
+Proof.
+  rewrite rebuild_shared_pairs. apply eff_seqL. apply Forall_forall. intros f Hf.
+  apply in_map_iff in Hf as (p & <- & Hp). intros y. unfold rb_pair.
+  eapply eff_weakenT; [|apply eff_rebuild_shared_one]. cbn beta. intros k Hk. unfold Tsh, shared_names.
+  rewrite Hk, <- spairs_snd. apply in_map; auto.
+Qed.
+
+Lemma rebuild_shared_arch_ok x : WfReg (a_reg (snd x)) -> arch_ok (snd (rebuild_shared x)).
+Proof.
+  intros W. pose proof (eff_rebuild_shared x) as (_ & _ & _ & R & _).
+  intros g s Hg Hs Hn. rewrite R in Hg. unfold net_names in Hn.
+  rewrite rebuild_shared_pairs in *. rewrite arch_seq in *.
+  set (ps := spairs (r_groups (a_reg (snd x)))) in *.
+  assert (Hp : In (g_eval g, s) ps).
+  { unfold ps, spairs. apply in_flat_map. exists g. split; auto. apply in_map; auto. }
+  apply (arch_fold_ok ps) with (p := (g_eval g, s)); auto.
+  - unfold ps. rewrite spairs_snd. apply (wf_shared_nodup _ W).
+  - intros p q Hp' Hq E. apply (wf_shared_not_eval _ W (snd q)).
+    + unfold shared_names. rewrite <- spairs_snd. apply in_map; auto.
+    + rewrite <- E. apply spairs_fst; auto.
+  - cbn [snd]. rewrite arch_fold_keys in Hn. auto.
+Qed.
+
+(* ---------------------------------------------------------------------------------------------- *)
+(* 10. the mutation kinds *)
+Definition named (a : agent) : Prop := forall o, In o (a_opts a) -> find_optcfg (a_reg a) (o_name o) <> None.
+
+Lemma coherent_named a : Coherent a -> named a.
+Proof. intros (H & _) o Ho. rewrite Forall_forall in H. destruct (H o Ho) as (c & F & _). congruence. Qed.
+
+Lemma hooked_transfer a a' :
+  a_reg a' = a_reg a -> (forall k, snd k = cEnc -> blk a' k = blk a k) -> hooked a -> hooked a'.
+Proof. intros R B H o Ho. rewrite R in Ho. rewrite B by reflexivity. auto. Qed.
+
+(* after Mutations.reinit_opt(individual) every (registered) optimizer is coherent *)
+Lemma reinit_all_ok x :
+  NoDup (map oc_name (r_opts (a_reg (snd x)))) -> named (snd x) ->
+  Forall (opt_ok (snd (reinit_opts (fun _ => true) x))) (a_opts (snd (reinit_opts (fun _ => true) x))).
+Proof.
+  intros ND Hn. destruct (reinit_opts_spec (fun _ => true) x ND) as [E O].
+  rewrite O, filter_true. pose proof (enc_head_not_ost _ _ _ _ _ E) as EH.
+  destruct E as (_ & Hh & _ & R & _). specialize (Hh eq_refl).
+  apply Forall_forall. intros o' Ho'. apply in_map_iff in Ho' as (o & <- & Ho).
+  specialize (Hn o Ho). unfold reopt. unfold find_optcfg in Hn.
+  destruct (find (fun c => N.eqb (oc_name c) (o_name o)) (r_opts (a_reg (snd x)))) as [c|] eqn:F; [|congruence].
+  exists c. cbn [o_name o_lr o_refs]. rewrite R, Hh. split; [exact F|]. split.
+  - rewrite (want_refs_same _ _ c EH). apply same_refs_refl.
+  - symmetry. apply lookupN_idem.
+Qed.
+
+Lemma eff_rebuild_eval sh x : eff (fun _ => True) false false true x (rebuild_eval sh x).
+Proof.
+  unfold rebuild_eval. apply eff_seqL.
+  repeat (apply Forall_cons; [intros y; first [apply eff_pure_arch | effw]|]). apply Forall_nil.
+Qed.
+
+Lemma eff_rebuild_evals shs x : eff (fun _ => True) false false true x (seqL (map rebuild_eval shs) x).
+Proof.
+  apply eff_seqL. apply Forall_forall. intros f Hf. apply in_map_iff in Hf as (sh & <- & _). intros y. apply eff_rebuild_eval.
+Qed.
+
+(* what the first phase (the drawn mutation function) establishes *)
+Definition phase1 (a : agent) (x1 : lstate) : Prop :=
+  a_reg (snd x1) = a_reg a /\ Forall (opt_ok (snd x1)) (a_opts (snd x1)) /\ hooked (snd x1).
+
+Lemma named_transfer a a' : a_reg a' = a_reg a -> a_opts a' = a_opts a -> named a -> named a'.
+Proof. intros R O H o Ho. rewrite R. rewrite O in Ho. auto. Qed.
+
+Lemma phase1_reinit a y :
+  WfReg (a_reg a) -> a_reg (snd y) = a_reg a -> named (snd y) -> hooked (snd y) ->
+  phase1 a (reinit_opts (fun _ => true) y).
+Proof.
+  intros W R Hn Hh. assert (ND : NoDup (map oc_name (r_opts (a_reg (snd y))))) by (rewrite R; apply (wf_opt_names _ W)).
+  destruct (reinit_opts_spec (fun _ => true) y ND) as [E _].
+  pose proof (enc_head_not_ost _ _ _ _ _ E) as EH. destruct E as (_ & _ & _ & R' & _).
+  split; [congruence|]. split; [apply reinit_all_ok; auto|].
+  eapply hooked_transfer; eauto.
+Qed.
+
+Lemma hp_mutation_ok a s h v :
+  WfReg (a_reg a) -> Coherent a ->
+  phase1 a (mutate_kind (MHp h v) [] (s, a)).
+Proof.
+  intros W C. unfold mutate_kind. rewrite !seqL_cons, seqL_nil. unfold pure at 1. cbn [fst snd].
+  set (a1 := with_hps a (setN h v (a_hps a))).
+  set (y := wfresh kReg (s, a1)).
+  assert (Ya : snd y = a1) by reflexivity.
+  assert (ND : NoDup (map oc_name (r_opts (a_reg (snd y))))) by (rewrite Ya; apply (wf_opt_names _ W)).
+  destruct (reinit_opts_spec (fun c => N.eqb (oc_lr c) h) y ND) as [E O].
+  pose proof (enc_head_not_ost _ _ _ _ _ E) as EH. destruct E as (_ & Hh & _ & R & _). specialize (Hh eq_refl).
+  rewrite Ya in *. split; [exact R|]. split.
+  - rewrite O. apply Forall_forall. intros o' Ho'. apply in_map_iff in Ho' as (o & <- & Ho).
+    destruct C as (CO & _ & _). rewrite Forall_forall in CO. destruct (CO o Ho) as (c & F & S & L).
+    unfold reopt. change (a_reg a1) with (a_reg a).
+    rewrite (find_filter_unique _ _ _ c (wf_opt_names _ W) F).
+    destruct (N.eqb_spec (oc_lr c) h) as [El|El].
+    + exists c. cbn [o_name o_lr o_refs]. rewrite R, Hh. split; [exact F|]. split.
+      * rewrite (want_refs_same _ _ c EH). apply same_refs_refl.
+      * symmetry. apply lookupN_idem.
+    + exists c. rewrite R, Hh. split; [exact F|]. split.
+      * rewrite (want_refs_same _ _ c EH). exact S.
+      * cbn [a1 with_hps a_hps]. rewrite lookupN_setN_other by auto. exact L.
+  - destruct C as (_ & _ & CH). apply (hooked_transfer a1); auto.
+Qed.
+
+Lemma phase1_kind a s k sh :
+  WfReg (a_reg a) -> Coherent a -> phase1 a (mutate_kind k sh (s, a)).
+Proof.
+  intros W C. pose proof (coherent_named a C) as Hn. pose proof C as (CO & CA & CH).
+  destruct k as [| | | |h v].
+  - (* none *) cbn [mutate_kind]. repeat split; auto.
+  - (* architecture: offspring, hooks, reinit_opt *)
+    cbn [mutate_kind]. rewrite seqL_app, !seqL_cons, seqL_nil.
+    set (y0 := seqL (map rebuild_eval sh) (s, a)).
+    destruct (eff_rebuild_evals sh (s, a)) as (O0 & _ & _ & R0 & _). fold y0 in O0, R0. cbn [snd] in O0, R0.
+    destruct (eff_run_hooks y0) as (O1 & _ & _ & R1 & _).
+    apply phase1_reinit; auto.
+    + congruence.
+    + apply (named_transfer a); [congruence|rewrite O1, O0; auto|auto].
+    + apply run_hooks_hooked.
+  - (* parameters: noise written in place, reinit_opt *)
+    cbn [mutate_kind]. cbv zeta. rewrite !seqL_cons, seqL_nil. unfold wfresh at 1 2 3. cbn [fst snd].
+    apply phase1_reinit; auto.
+  - (* activation *)
+    cbn [mutate_kind]. cbn [snd]. destruct (r_act_skip (a_reg a)) eqn:Sk.
+    + repeat split; auto.
+    + rewrite seqL_app, !seqL_cons, seqL_nil.
+      set (y0 := seqL (map rebuild_eval sh) (s, a)).
+      destruct (eff_rebuild_evals sh (s, a)) as (O0 & _ & _ & R0 & _). fold y0 in O0, R0. cbn [snd] in O0, R0.
+      apply phase1_reinit; auto.
+      * apply (named_transfer a); auto.
+      * intros o Ho. rewrite R0 in Ho. destruct (wf_share_skip _ W) as [Hs|Hs]; [|congruence].
+        rewrite (no_share_others _ Hs) in Ho. contradiction.
+  - (* hyper-parameter *)
+    assert (E : mutate_kind (MHp h v) sh (s, a) = mutate_kind (MHp h v) [] (s, a)) by reflexivity.
+    rewrite E. apply hp_mutation_ok; auto.
+Qed.
+
+(* the second phase: shared networks re-created from their evaluation networks, hooks, label *)
+Lemma want_refs_same_nets a a' c :
+  (forall n, In n (oc_nets c) -> exposed a' n = exposed a n) -> want_refs a' c = want_refs a c.
+Proof. intros H. unfold want_refs. f_equal. apply map_ext_in. auto. Qed.
+
+Lemma phase2 a x1 label :
+  WfReg (a_reg a) -> phase1 a x1 ->
+  Coherent (snd (pure (fun b => with_mut b label) (run_hooks (rebuild_shared x1)))).
+Proof.
+  intros W (R1 & O1 & H1).
+  set (x2 := rebuild_shared x1). set (x3 := run_hooks x2).
+  pose proof (eff_rebuild_shared x1) as E2. fold x2 in E2. rewrite R1 in E2.
+  pose proof (eff_run_hooks x2) as E3. fold x3 in E3.
+  assert (R2 : a_reg (snd x2) = a_reg a) by (destruct E2 as (_ & _ & _ & R & _); congruence).
+  assert (R3 : a_reg (snd x3) = a_reg a) by (destruct E3 as (_ & _ & _ & R & _); congruence).
+  unfold pure. cbn [snd].
+  (* exposed blocks of optimised networks are the same objects before and after *)
+  assert (EX : forall c n, In c (r_opts (a_reg a)) -> In n (oc_nets c) -> exposed (snd x3) n = exposed (snd x1) n).
+  { intros c n Hc Hn. pose proof (wf_opt_nets _ W c n Hc Hn) as Hns. unfold exposed. f_equal.
+    - rewrite (run_hooks_enc _ x2) by reflexivity. cbn [fst]. rewrite R2.
+      rewrite (eff_other _ _ _ _ _ _ _ E2) by (unfold Tsh; cbn [fst]; auto).
+      destruct (memN n (share_others (a_reg a))) eqn:M; auto.
+      apply memN_In in M. symmetry. apply H1. rewrite R1. auto.
+    - rewrite (eff_other _ _ _ _ _ _ _ E3).
+      + apply (eff_other _ _ _ _ _ _ _ E2). unfold Tsh; cbn [fst]; auto.
+      + unfold Thook. cbn [snd]. intros [H|[H|H]]; discriminate. }
+  split; [|split].
+  - cbn [with_mut a_opts]. destruct E3 as (O3 & Hh3 & _). destruct E2 as (O2 & Hh2 & _).
+    rewrite O3, O2 by auto. apply Forall_forall. intros o Ho. rewrite Forall_forall in O1. specialize (O1 o Ho).
+    apply (opt_ok_transfer (snd x1)); auto.
+    + cbn [with_mut a_reg]. congruence.
+    + cbn [with_mut a_hps]. rewrite Hh3, Hh2; auto.
+    + intros c F. rewrite R1 in F. apply find_optcfg_spec in F as [Hc _].
+      apply want_refs_same_nets. intros n Hn. apply (EX c n Hc Hn).
+  - intros g s Hg Hs Hn. cbn [with_mut a_reg a_arch] in *. unfold net_names in Hn. cbn [with_mut a_arch] in Hn.
+    destruct E3 as (_ & _ & A3 & _). rewrite A3 in * by auto. rewrite R3 in Hg.
+    assert (W1 : WfReg (a_reg (snd x1))) by (rewrite R1; auto).
+    apply (rebuild_shared_arch_ok x1 W1 g s); auto. fold x2. rewrite R2. auto.
+  - apply (hooked_transfer (snd x3)); auto. apply run_hooks_hooked.
+Qed.
+
+Theorem mutate_agent_coherent k sh label s a :
+  wf_registry (a_reg a) = true -> Coherent a -> Coherent (snd (mutate_agent k sh label (s, a))).
+Proof.
+  intros Wb C. apply wf_registry_WfReg in Wb. unfold mutate_agent. rewrite !seqL_cons, seqL_nil.
+  apply (phase2 a); auto. apply phase1_kind; auto.
+Qed.
+
+Lemma mutate_agent_reg k sh label x : a_reg (snd (mutate_agent k sh label x)) = a_reg (snd x).
+Proof.
+  unfold mutate_agent. rewrite !seqL_cons, seqL_nil. unfold pure. cbn [snd with_mut a_reg].
+  destruct (eff_run_hooks (rebuild_shared (mutate_kind k sh x))) as (_ & _ & _ & R3 & _). rewrite R3.
+  destruct (eff_rebuild_shared (mutate_kind k sh x)) as (_ & _ & _ & R2 & _). rewrite R2.
+  destruct k as [| | | |h v]; cbn [mutate_kind]; auto.
+  - rewrite seqL_app, !seqL_cons, seqL_nil.
+    unfold reinit_opts. match goal with |- a_reg (snd (seqL (map reinit_one ?cs) ?y)) = _ => 
+      assert (E : eff Tost true false false y (seqL (map reinit_one cs) y)) end.
+    { apply eff_seqL. apply Forall_forall. intros f Hf. apply in_map_iff in Hf as (c & <- & _). intros z. apply eff_reinit_one. }
+    destruct E as (_ & _ & _ & R & _). rewrite R.
+    destruct (eff_run_hooks (seqL (map rebuild_eval sh) x)) as (_ & _ & _ & R' & _). rewrite R'.
+    destruct (eff_rebuild_evals sh x) as (_ & _ & _ & R'' & _). auto.
+  - cbv zeta. rewrite !seqL_cons, seqL_nil. unfold wfresh at 1 2 3. cbn [fst snd].
+    unfold reinit_opts. match goal with |- a_reg (snd (seqL (map reinit_one ?cs) ?y)) = _ => 
+      assert (E : eff Tost true false false y (seqL (map reinit_one cs) y)) end.
+    { apply eff_seqL. apply Forall_forall. intros f Hf. apply in_map_iff in Hf as (c & <- & _). intros z. apply eff_reinit_one. }
+    destruct E as (_ & _ & _ & R & _). rewrite R. reflexivity.
+  - destruct (r_act_skip (a_reg (snd x))); auto.
+    rewrite seqL_app, !seqL_cons, seqL_nil.
+    unfold reinit_opts. match goal with |- a_reg (snd (seqL (map reinit_one ?cs) ?y)) = _ => 
+      assert (E : eff Tost true false false y (seqL (map reinit_one cs) y)) end.
+    { apply eff_seqL. apply Forall_forall. intros f Hf. apply in_map_iff in Hf as (c & <- & _). intros z. apply eff_reinit_one. }
+    destruct E as (_ & _ & _ & R & _). rewrite R.
+    destruct (eff_rebuild_evals sh x) as (_ & _ & _ & R'' & _). auto.
+  - rewrite !seqL_cons, seqL_nil.
+    unfold reinit_opts. match goal with |- a_reg (snd (seqL (map reinit_one ?cs) ?y)) = _ => 
+      assert (E : eff Tost true false false y (seqL (map reinit_one cs) y)) end.
+    { apply eff_seqL. apply Forall_forall. intros f Hf. apply in_map_iff in Hf as (c & <- & _). intros z. apply eff_reinit_one. }
+    destruct E as (_ & _ & _ & R & _). rewrite R. reflexivity.
+Qed.
+
+(* ---------------------------------------------------------------------------------------------- *)
+(* 11. the other operations of the evolutionary loop keep coherence *)
+Lemma coherent_eff T x y :
+  eff T false false false x y -> (forall k, T k -> snd k <> cEnc /\ snd k <> cHead) ->
+  Coherent (snd x) -> Coherent (snd y).
+Proof.
+  intros E HT (CO & CA & CH).
+  assert (EH : enc_head_same (snd x) (snd y)).
+  { intros k Hk. apply (eff_other _ _ _ _ _ _ k E). intro Tk. destruct (HT k Tk). destruct Hk; contradiction. }
+  destruct E as (O & Hh & A & R & _ & _). specialize (O eq_refl). specialize (Hh eq_refl). specialize (A eq_refl).
+  split; [|split].
+  - rewrite O. apply Forall_forall. intros o Ho. rewrite Forall_forall in CO.
+    apply (opt_ok_transfer (snd x)); auto. intros c _. apply want_refs_same; auto.
+  - intros g s Hg Hs Hn. unfold net_names in Hn. rewrite A in *. rewrite R in Hg. apply CA; auto.
+  - apply (hooked_transfer (snd x)); auto.
+Qed.
+
+Lemma eff_learn_opt ok x : eff Tost false false false x (learn_opt ok x).
+Proof.
+  unfold learn_opt. destruct (Nat.eqb _ _); unfold Tost; effw.
+Qed.
+
+Lemma eff_learn st x : eff Tost false false false x (learn_agent st x).
+Proof.
+  unfold learn_agent. apply eff_seqL. apply Forall_app. split; [|apply Forall_app; split].
+  - apply Forall_forall. intros f Hf. apply in_flat_map in Hf as (n & _ & Hf).
+    destruct Hf as [<-|[<-|[<-|[]]]]; intros y; unfold Tost; effw.
+  - constructor; [|constructor]. intros y. unfold Tost; effw.
+  - apply Forall_forall. intros f Hf. apply in_map_iff in Hf as (ok & <- & _). intros y. apply eff_learn_opt.
+Qed.
+
+Lemma Tost_not_exposed k : Tost k -> snd k <> cEnc /\ snd k <> cHead.
+Proof. unfold Tost. intros ->. split; discriminate. Qed.
+
+Lemma learn_coherent st x : Coherent (snd x) -> Coherent (snd (learn_agent st x)).
+Proof. apply (coherent_eff Tost); [apply eff_learn|apply Tost_not_exposed]. Qed.
+
+Lemma score_agent_same x : snd (score_agent x) = snd x.
+Proof. reflexivity. Qed.
+
+Lemma seqL_same_agent l : Forall (fun f : lstate -> lstate => forall y, snd (f y) = snd y) l -> forall y, snd (seqL l y) = snd y.
+Proof. induction l as [|f r IH]; intros H y; [reflexivity|]. inversion H; subst. rewrite seqL_cons, IH; auto. Qed.
+
+Lemma act_agent_same x : snd (act_agent x) = snd x.
+Proof.
+  unfold act_agent. apply seqL_same_agent. apply Forall_app. split.
+  - apply Forall_forall. intros f Hf. apply in_map_iff in Hf as (n & <- & _). intros y. reflexivity.
+  - constructor; [|constructor]. intros y. reflexivity.
+Qed.
+
+(* clone: new optimizer wrappers over the copied networks *)
+Lemma clone_coherent idx s a : Coherent a -> Coherent (snd (clone_agent idx s a)).
+Proof.
+  intros (CO & CA & CH). rewrite clone_agent_unfold.
+  set (s1 := fst (copy_blocks s (a_blocks a))). set (bs := snd (copy_blocks s (a_blocks a))).
+  set (y0 := (s1, with_blocks a bs)). unfold clone_tail.
+  set (y1 := run_hooks y0).
+  pose proof (eff_run_hooks y0) as E1. fold y1 in E1. destruct E1 as (O1 & H1 & A1 & R1 & _ & _).
+  specialize (O1 eq_refl). specialize (H1 eq_refl). specialize (A1 eq_refl). cbn [y0 snd with_blocks a_opts a_hps a_arch a_reg] in O1, H1, A1, R1.
+  set (y2 := pure fix_refs y1).
+  set (y3 := realloc kExt (map CopyOf (blk a kExt)) y2).
+  assert (E3 : eff (fun k => k = kExt) false false false y2 y3) by apply eff_realloc.
+  assert (EH : enc_head_same (snd y2) (snd y3)).
+  { intros k Hk. apply (eff_other _ _ _ _ _ _ k E3). intro; subst. destruct Hk; discriminate. }
+  destruct E3 as (O3 & H3 & A3 & R3 & _ & _). specialize (O3 eq_refl). specialize (H3 eq_refl). specialize (A3 eq_refl).
+  assert (Y2 : snd y2 = fix_refs (snd y1)) by reflexivity.
+  assert (Fin : forall b : agent, a_opts (snd (pure (fun c => match idx with Some i => with_index c i | None => c end) (s, b))) = a_opts b /\
+                 True) by (intros; split; auto; destruct idx; reflexivity).
+  assert (G : Coherent (snd y3)).
+  { split; [|split].
+    - rewrite O3, Y2. unfold fix_refs. cbn [with_opts a_opts]. rewrite O1, R1.
+      apply Forall_forall. intros o' Ho'. apply in_map_iff in Ho' as (o & <- & Ho).
+      rewrite Forall_forall in CO. destruct (CO o Ho) as (c & F & S & L). rewrite F.
+      exists c. cbn [o_name o_lr o_refs]. rewrite R3, Y2. unfold fix_refs at 1. cbn [with_opts a_reg]. rewrite R1.
+      split; [exact F|]. split.
+      + rewrite (want_refs_same _ _ c EH). rewrite Y2. unfold fix_refs. 
+        assert (Wr : want_refs (with_opts (snd y1) (map (fun o0 => match find_optcfg (a_reg a) (o_name o0) with
+                        | Some c0 => mkOpt (o_name o0) (o_lr o0) (want_refs (snd y1) c0) | None => o0 end) (a_opts a))) c
+                     = want_refs (snd y1) c) by reflexivity.
+        rewrite O1, R1. rewrite Wr. apply same_refs_refl.
+      + rewrite H3, Y2. unfold fix_refs. cbn [with_opts a_hps]. rewrite H1. exact L.
+    - intros g sh Hg Hs Hn.
+      assert (AR : a_arch (snd y3) = a_arch a) by (rewrite A3, Y2; unfold fix_refs; cbn [with_opts a_arch]; exact A1).
+      assert (RR : a_reg (snd y3) = a_reg a) by (rewrite R3, Y2; unfold fix_refs; cbn [with_opts a_reg]; exact R1).
+      unfold net_names in Hn. rewrite AR in *. rewrite RR in Hg. apply CA; auto.
+    - apply (hooked_transfer (snd y1)).
+      + rewrite R3, Y2. reflexivity.
+      + intros k Hk. rewrite EH by auto. rewrite Y2. reflexivity.
+      + apply run_hooks_hooked. }
+  unfold pure. cbn [snd fst]. destruct idx; exact G.
+Qed.
+
+Lemma clone_agent_reg idx s a : a_reg (snd (clone_agent idx s a)) = a_reg a.
+Proof.
+  rewrite clone_agent_unfold. unfold clone_tail.
+  set (y0 := (fst (copy_blocks s (a_blocks a)), with_blocks a (snd (copy_blocks s (a_blocks a))))).
+  destruct (eff_run_hooks y0) as (_ & _ & _ & R1 & _).
+  destruct (eff_realloc kExt (map CopyOf (blk a kExt)) false false false (pure fix_refs (run_hooks y0))) as (_ & _ & _ & R3 & _).
+  unfold pure at 1. cbn [snd fst]. destruct idx; cbn [with_index a_reg]; rewrite R3; unfold pure; cbn [snd fix_refs with_opts a_reg]; rewrite R1; reflexivity.
+Qed.
+
+(* ---------------------------------------------------------------------------------------------- *)
+(* 12. populations and histories *)
+Definition Good (a : agent) : Prop := wf_registry (a_reg a) = true /\ Coherent a.
+Definition AllGood (w : world) : Prop := Forall Good (w_pop w).
+
+Lemma Forall_update {A} (P : A -> Prop) (l : list A) : forall i x, Forall P l -> P x -> Forall P (update i x l).
+Proof.
+  induction l as [|h t IH]; intros [|i] x H Hx; cbn [update]; auto; inversion H; subst; constructor; auto.
+Qed.
+
+Lemma Forall_remove_nth {A} (P : A -> Prop) (l : list A) : forall i, Forall P l -> Forall P (remove_nth i l).
+Proof.
+  induction l as [|h t IH]; intros [|i] H; cbn [remove_nth]; auto; inversion H; subst; auto.
+Qed.
+
+Lemma apply_local_good i f w :
+  (forall s a, Good a -> Good (snd (f (s, a)))) -> AllGood w -> AllGood (apply_local i f w).
+Proof.
+  intros Hf H. unfold apply_local. destruct (nth_error (w_pop w) i) as [a|] eqn:E; auto.
+  unfold AllGood. cbn [w_pop]. apply Forall_update; auto. apply Hf.
+  unfold AllGood in H. rewrite Forall_forall in H. apply H. eapply nth_error_In; eauto.
+Qed.
+
+Lemma clone_into_good i idx w : AllGood w -> AllGood (clone_into clone_agent i idx w).
+Proof.
+  intros H. unfold clone_into. destruct (nth_error (w_pop w) i) as [a|] eqn:E; auto.
+  pose proof (clone_coherent idx (w_store w) a) as C. pose proof (clone_agent_reg idx (w_store w) a) as R.
+  destruct (clone_agent idx (w_store w) a) as [s' c]. cbn [snd] in *.
+  unfold AllGood in *. cbn [w_pop]. apply Forall_app. split; auto. constructor; [|constructor].
+  rewrite Forall_forall in H. destruct (H a (nth_error_In _ _ E)) as [Wa Ca]. split; [congruence|auto].
+Qed.
+
+Lemma clone_winners_good : forall ws id old w, AllGood w -> AllGood (clone_winners ws id old w).
+Proof. induction ws as [|i r IH]; intros; cbn [clone_winners]; auto. apply IH. apply clone_into_good; auto. Qed.
+
+Lemma Forall_skipn {A} (P : A -> Prop) n (l : list A) : Forall P l -> Forall P (skipn n l).
+Proof. intros H. rewrite <- (firstn_skipn n l) in H. apply Forall_app in H. tauto. Qed.
+Lemma Forall_firstn {A} (P : A -> Prop) n (l : list A) : Forall P l -> Forall P (firstn n l).
+Proof. intros H. rewrite <- (firstn_skipn n l) in H. apply Forall_app in H. tauto. Qed.
+
+Lemma select_good e ws el w : AllGood w -> AllGood (select e ws el w).
+Proof.
+  intros H. unfold select.
+  set (w3 := clone_winners ws (max_index (w_pop w)) (length (w_pop w))
+               (if el then clone_into clone_agent (length (w_pop w)) None (clone_into clone_agent e None w)
+                else clone_into clone_agent e None w)).
+  assert (H3 : AllGood w3).
+  { apply clone_winners_good. destruct el; [apply clone_into_good|]; apply clone_into_good; auto. }
+  unfold AllGood in *. cbn [w_pop]. apply Forall_app. split.
+  - apply Forall_skipn; auto.
+  - apply Forall_firstn. apply Forall_skipn; auto.
+Qed.
+
+Lemma step_good w o : AllGood w -> AllGood (step w o).
+Proof.
+  intros H. destruct o; cbn [step].
+  - apply apply_local_good; auto. intros s a [Wa Ca]. split.
+    + destruct (eff_learn st (s, a)) as (_ & _ & _ & R & _). rewrite R. auto.
+    + apply learn_coherent; auto.
+  - apply apply_local_good; auto.
+  - apply apply_local_good; auto. intros s a G. rewrite act_agent_same. auto.
+  - apply clone_into_good; auto.
+  - apply apply_local_good; auto. intros s a [Wa Ca]. split.
+    + rewrite mutate_agent_reg. auto.
+    + apply mutate_agent_coherent; auto.
+  - apply select_good; auto.
+  - unfold AllGood in *. cbn [w_pop]. apply Forall_remove_nth; auto.
+Qed.
+
+Theorem run_good ops : forall w, AllGood w -> AllGood (run w ops).
+Proof. unfold run. induction ops as [|o r IH]; intros w H; cbn [fold_left]; auto. apply IH. apply step_good; auto. Qed.
+
+Lemma AllGood_intro w : WfRegs w -> AllCoherent w -> AllGood w.
+Proof.
+  unfold WfRegs, AllCoherent, AllGood. rewrite !Forall_forall. intros H1 H2 a Ha. split; auto.
+Qed.
+
+Lemma generations_coherent_lemma w ops : WfRegs w -> AllCoherent w -> AllCoherent (run w ops) /\ WfRegs (run w ops).
+Proof.
+  intros H1 H2. pose proof (run_good ops w (AllGood_intro w H1 H2)) as G.
+  unfold AllGood, AllCoherent, WfRegs in *. rewrite !Forall_forall in *. split; intros a Ha; apply G; auto.
+Qed.
+
+(* Mutations.mutation(population) as one operation *)
+Lemma mutate_from_run ds : forall i w, mutate_from i ds w = run w (mutate_ops i ds).
+Proof.
+  induction ds as [|[[k sh] lab] r IH]; intros i w; cbn [mutate_from mutate_ops]; [reflexivity|].
+  rewrite IH. reflexivity.
+Qed.
+
+Lemma mutation_coherent_pop_lemma ds w : WfRegs w -> AllCoherent w -> AllCoherent (mutate_pop ds w).
+Proof. intros H1 H2. unfold mutate_pop. rewrite mutate_from_run. apply generations_coherent_lemma; auto. Qed.
+
+Lemma all_refs_live_lemma w ops : WfRegs w -> AllCoherent w ->
+  forall a, In a (w_pop (run w ops)) -> refs_live a.
+Proof.
+  intros H1 H2 a Ha. apply coherent_refs_live_lemma.
+  destruct (generations_coherent_lemma w ops H1 H2) as [G _]. unfold AllCoherent in G. rewrite Forall_forall in G. auto.
+Qed.
